@@ -1,48 +1,81 @@
-(* Memoer.verify as modelled (MemoGram.mverify): which key a signer id is checked against. *)
-From Hio Require Import Base.Prelude Model.B64 Model.MemoGram Model.MemoRx Proofs.MemoRxProofs.
+(* Memoer.verify as modelled (MemoGram.mverify): canonical decoding of key and
+   signature text, and which key a signer id is checked against. *)
+From Hio Require Import Base.Prelude Model.B64 Model.MemoGram Model.MemoRx Proofs.MemoRxProofs
+  Proofs.MemoCodecB2Proofs.
 Local Open Scope N_scope.
 
+(* ---------- the decoders accept canonical text only ---------- *)
+Theorem decode_key_canonical : forall t c raw, decode_key t = Some (c, raw) -> encode_key c raw = t.
+Proof.
+  intros t c raw H. unfold decode_key in H. destruct t as [|c0 rest]; [discriminate|].
+  destruct (Nat.eqb (length (c0 :: rest)) 44) eqn:L; cbn [andb] in H; [|discriminate].
+  destruct (is_b64 (c0 :: rest)) eqn:B; [|discriminate].
+  destruct (dec (65 :: rest)) as [|z raw'] eqn:D; [discriminate|].
+  destruct z; [|discriminate]. inversion H; subst c0 raw'; clear H.
+  apply Nat.eqb_eq in L. cbn [is_b64 forallb] in B. apply andb_prop in B. destruct B as [_ Br].
+  destruct (enc_dec 11 (65 :: rest)) as [E _]; [cbn [length] in *; lia|cbn [is_b64 forallb]; exact Br|].
+  unfold encode_key. rewrite <- D, E. reflexivity.
+Qed.
+
+Theorem decode_sgn_canonical : forall t raw, decode_sgn t = Some raw -> encode_sgn raw = t.
+Proof.
+  intros t raw H. unfold decode_sgn in H. destruct t as [|c0 [|c1 rest]]; try discriminate.
+  destruct (c0 =? 48) eqn:E0; cbn [andb] in H; [|discriminate].
+  destruct (c1 =? 66) eqn:E1; cbn [andb] in H; [|discriminate].
+  destruct (Nat.eqb (length (c0 :: c1 :: rest)) 88) eqn:L; cbn [andb] in H; [|discriminate].
+  destruct (is_b64 (c0 :: c1 :: rest)) eqn:B; [|discriminate].
+  destruct (dec (65 :: 65 :: rest)) as [|z0 l] eqn:D; [discriminate|].
+  destruct z0; [|discriminate]. destruct l as [|z1 raw']; [discriminate|].
+  destruct z1; [|discriminate]. inversion H; subst raw'; clear H.
+  apply N.eqb_eq in E0. apply N.eqb_eq in E1. subst c0 c1. apply Nat.eqb_eq in L.
+  cbn [is_b64 forallb] in B. apply andb_prop in B. destruct B as [_ B]. apply andb_prop in B. destruct B as [_ Br].
+  destruct (enc_dec 22 (65 :: 65 :: rest)) as [E _]; [cbn [length] in *; lia|cbn [is_b64 forallb]; exact Br|].
+  unfold encode_sgn. rewrite <- D, E. reflexivity.
+Qed.
+
+(* two accepted texts of the same raw value are the same text *)
+Corollary sgn_text_unique : forall a b raw, decode_sgn a = Some raw -> decode_sgn b = Some raw -> a = b.
+Proof. intros a b raw Ha Hb. rewrite <- (decode_sgn_canonical _ _ Ha), <- (decode_sgn_canonical _ _ Hb). reflexivity. Qed.
+
+Corollary key_text_unique : forall a b c raw, decode_key a = Some (c, raw) -> decode_key b = Some (c, raw) -> a = b.
+Proof. intros a b c raw Ha Hb. rewrite <- (decode_key_canonical _ _ _ Ha), <- (decode_key_canonical _ _ _ Hb). reflexivity. Qed.
+
 Section MVerify.
-  Variable sigverify : bytes -> bytes -> bytes -> res unit.
+  Variable rawverify : bytes -> bytes -> bytes -> res unit.
   Variable keep : bytes -> option bytes.
 
-  (* the key text a signer id stands for at this receiver *)
-  Definition key_of (vid : bytes) : option bytes :=
-    match vid with
-    | [] => None
-    | c :: _ => if c =? 66 then Some vid else keep vid
-    end.
-
-  Lemma mverify_ok : forall vid sg ser, mverify sigverify keep vid sg ser = Ok tt ->
-    exists key, key_of vid = Some key /\ sigverify key sg ser = Ok tt.
+  Lemma mverify_ok : forall vid sg ser, mverify rawverify keep vid sg ser = Ok tt ->
+    exists key rs, key_raw keep vid = Some key /\ decode_sgn sg = Some rs /\ encode_sgn rs = sg /\
+                   rawverify key rs ser = Ok tt.
   Proof.
-    intros vid sg ser H. unfold mverify in H. destruct vid as [|c rest]; [discriminate|].
-    destruct (negb _); [discriminate|]. destruct (negb _); [discriminate|].
-    destruct (16 <=? idx (hd 0 rest)); [discriminate|]. unfold key_of.
-    destruct (c =? 66).
-    - exists (c :: rest). auto.
-    - destruct (keep (c :: rest)) as [q|]; [|discriminate]. exists q. auto.
+    intros vid sg ser H. unfold mverify in H.
+    destruct (key_raw keep vid) as [k|]; [|discriminate].
+    destruct (decode_sgn sg) as [rs|] eqn:D; [|discriminate].
+    exists k, rs. repeat split; auto. apply decode_sgn_canonical. exact D.
   Qed.
 
-  Lemma mverify_no_vid : forall s m, mverify sigverify keep [] s m <> Ok tt.
+  Lemma mverify_no_vid : forall s m, mverify rawverify keep [] s m <> Ok tt.
   Proof. intros s m. discriminate. Qed.
 
   Lemma mverify_contract :
-    (forall k s m, sigverify k s m = Ok tt \/ sigverify k s m = Exc MemoErr) ->
-    forall v s m, mverify sigverify keep v s m = Ok tt \/ mverify sigverify keep v s m = Exc MemoErr.
+    (forall k s m, rawverify k s m = Ok tt \/ rawverify k s m = Exc MemoErr) ->
+    forall v s m, mverify rawverify keep v s m = Ok tt \/ mverify rawverify keep v s m = Exc MemoErr.
   Proof.
-    intros Hc v s m. unfold mverify. destruct v as [|c rest]; [right; reflexivity|].
-    destruct (negb _); [right; reflexivity|]. destruct (negb _); [right; reflexivity|].
-    destruct (16 <=? idx (hd 0 rest)); [right; reflexivity|].
-    destruct (c =? 66); [apply Hc|]. destruct (keep (c :: rest)); [apply Hc|right; reflexivity].
+    intros Hc v s m. unfold mverify. destruct (key_raw keep v); [|right; reflexivity].
+    destruct (decode_sgn s); [apply Hc|right; reflexivity].
   Qed.
 
   (* a transferable / digest signer id without a keep entry verifies nothing *)
   Lemma no_keep_no_verify : forall vid sg ser,
-    hd 0 vid <> 66 -> keep vid = None -> mverify sigverify keep vid sg ser <> Ok tt.
+    hd 0 vid <> 66 -> keep vid = None -> mverify rawverify keep vid sg ser <> Ok tt.
   Proof.
-    intros vid sg ser Hc Hk H. apply mverify_ok in H. destruct H as (key & K & _).
-    unfold key_of in K. destruct vid as [|c rest]; [discriminate|]. cbn in Hc.
-    destruct (c =? 66) eqn:E; [apply N.eqb_eq in E; contradiction|]. congruence.
+    intros vid sg ser Hc Hk H. apply mverify_ok in H. destruct H as (key & rs & K & _).
+    unfold key_raw in K. destruct (decode_key vid) as [[c rawv]|] eqn:D; [|discriminate].
+    assert (c = hd 0 vid).
+    { unfold decode_key in D. destruct vid as [|c0 rest]; [discriminate|].
+      destruct (_ && _); [|discriminate]. destruct (dec (65 :: rest)) as [|z r]; [discriminate|].
+      destruct z; [|discriminate]. inversion D; reflexivity. }
+    subst c. destruct (hd 0 vid =? 66) eqn:E; [apply N.eqb_eq in E; contradiction|].
+    rewrite Hk in K. destruct (_ || _); discriminate.
   Qed.
 End MVerify.
